@@ -16,26 +16,15 @@ M = [
  ("C02-2","C02","src/duration/mod.rs","} else if centuries_i128 < i16::MIN.into() {","} else if centuries_i128 <= i16::MIN.into() {","from_total_nanoseconds saturates one century early on the negative side"),
  ("C02-3","C02","src/duration/mod.rs","if self.centuries == i16::MIN || self.centuries.abs() >= 3 {","if self.centuries == i16::MIN || self.centuries.abs() > 3 {","try_truncated_nanoseconds guard off by one: centuries == -3 overflows the i64 multiplication"),
  ("C04-1","C04","src/epoch/ops.rs","        self.duration - other.to_time_scale(self.time_scale).duration\n    }\n}\n\nimpl SubAssign<Duration>","        self.to_time_scale(other.time_scale).duration - other.duration\n    }\n}\n\nimpl SubAssign<Duration>","Epoch - Epoch measured in the right operand's scale (differs across leap seconds and for ET/TDB)"),
- ("C04-2","C04","src/epoch/ops.rs","    fn sub_assign(&mut self, unit: Unit) {\n        *self = *self - unit * 1;","    fn sub_assign(&mut self, unit: Unit) {\n        *self = *self + unit * 1;","Epoch -= Unit adds (copy-paste from +=)"),
- ("C07-1","C07","src/epoch/mod.rs","pub const NAIF_M1: f64 = 1.99096871e-7;","pub const NAIF_M1: f64 = 1.99096870e-7;","last digit of the NAIF mean-motion constant (error grows with the distance from J2000)"),
- ("C07-2","C07","src/epoch/mod.rs","let g = TAU / 360.0 * 357.528 + 1.990_910_018_065_731e-7 * seconds;","let g = TAU / 360.0 * 357.53 + 1.990_910_018_065_731e-7 * seconds;","TDB mean anomaly at J2000 rounded to two decimals (about 58 ns)"),
  ("C08-1","C08","src/epoch/gregorian.rs","            | 1996\n            | 1999","            | 1996\n            | 1998\n            | 1999","january_years gains 1998: 1997-12-31T23:59:60 becomes valid"),
  ("C08-2","C08","src/epoch/gregorian.rs","        || minute > 59","        || minute > 60","minute 60 accepted"),
- ("C08-3","C08","src/epoch/gregorian.rs","            // Remove days\n            for y in year..HIFITIME_REF_YEAR {","            // Remove days\n            for y in (year + 1)..HIFITIME_REF_YEAR {","construction before 1900 forgets the leap day of the year itself"),
- ("C09-1","C09","src/epoch/formatting.rs",None,None,"UpperHex (TT) formatter pads seconds with a space"),
  ("C10-1","C10","src/epoch/gregorian.rs","            -(i64::from(decomposed[7]) * Unit::Hour + i64::from(decomposed[8]) * Unit::Minute)\n        } else {\n            i64::from(decomposed[7]) * Unit::Hour + i64::from(decomposed[8]) * Unit::Minute","            -(i64::from(decomposed[7]) * Unit::Hour) + i64::from(decomposed[8]) * Unit::Minute\n        } else {\n            i64::from(decomposed[7]) * Unit::Hour + i64::from(decomposed[8]) * Unit::Minute","positive offsets: the minutes are added instead of subtracted (misplaced parenthesis)"),
  ("C10-2","C10","src/epoch/mod.rs","let s = self.to_string(); // Assuming `Display` is implemented for `Epoch`","let s = format!(\"{self:?}\");","serde serializes through Debug (UTC rendering): non-UTC epochs change scale on a round trip"),
- ("C11-1","C11","src/duration/parse.rs","(\"hr\", 1),","(\"hr\", 2),","unit spelling 'hr' mapped to the minutes slot"),
  ("C12-1","C12","src/epoch/ops.rs","            self.duration.to_parts() == other.duration.to_parts()\n        } else {","            self.duration == other.duration\n        } else {","regression: same-scale Epoch equality delegates to Duration equality (x == -x)"),
  ("C12-2","C12","src/epoch/ops.rs","        if *self < other {\n            *self","        if self.duration < other.duration {\n            *self","Epoch::min compares raw durations, ignoring the time scales"),
  ("C13-1","C13","src/duration/parse.rs","    if !s.is_ascii() {","    if false && !s.is_ascii() {","regression: parse_offset slices non-ASCII input"),
- ("C13-2","C13","src/efmt/format.rs","                if prev_idx > end_idx {","                if false && prev_idx > end_idx {","regression: Format::parse slices with begin > end"),
  ("C14-1","C14","src/duration/mod.rs","if *self - floored < (ceiled - *self).abs() {","if *self - floored <= (ceiled - *self).abs() {","round: ties go down"),
- ("C14-2","C14","src/epoch/ops.rs","Self::from_duration(self.duration.round(duration), self.time_scale)","Self::from_duration(self.to_tai_duration().round(duration), self.time_scale)","Epoch::round rounds the TAI duration but keeps the scale label"),
  ("C16-1","C16","src/epoch/ops.rs","(days.rem_euclid(Weekday::DAYS_PER_WEEK_I128) as u8).into()","((days % Weekday::DAYS_PER_WEEK_I128) as u8).into()","weekday uses % instead of rem_euclid: wrong before 1900"),
- ("C17-1","C17","src/epoch/mod.rs","        (self.to_utc_duration() + Unit::Day * MJD_J1900).to_unit(unit)","        (self.to_tai_duration() + Unit::Day * MJD_J1900).to_unit(unit)","to_mjd_utc built from the TAI duration"),
- ("C17-2","C17","src/epoch/mod.rs",None,None,"to_mjd_tt_duration uses MJD_J2000"),
- ("C18-1","C18","src/duration/mod.rs","            f64::from(self.centuries) * SECONDS_PER_CENTURY\n                + (seconds as f64)\n                + (subseconds as f64) * 1e-9","            f64::from(self.centuries) * SECONDS_PER_CENTURY + (seconds as f64)","to_seconds drops the sub-second part beyond one century ('below float resolution anyway')"),
  ("C18-2","C18","src/timeunits.rs","            if total_ns.abs() < (i64::MAX as f64) {\n                Duration::from_truncated_nanoseconds(total_ns as i64)\n            } else {\n                Duration::from_total_nanoseconds(total_ns as i128)\n            }\n        }\n    }\n}\n\n#[test]","            if total_ns.abs() <= (i64::MAX as f64) {\n                Duration::from_truncated_nanoseconds(total_ns as i64)\n            } else {\n                Duration::from_total_nanoseconds(total_ns as i128)\n            }\n        }\n    }\n}\n\n#[test]","Unit * f64: i64 cast used at exactly 2^63 (saturating cast loses one nanosecond)"),
  ("C19-1","C19","src/efmt/formatter.rs","                        if !item.optional || nanos > 0 {","                        if !item.optional || nanos >= 1000 {","optional %f? omitted below one microsecond"),
  ("C20-1","C20","src/epoch/mod.rs","        if centuries != 0 {","        if centuries > 0 {","nanosecond counters return a number instead of an error for negative counts"),
